@@ -71,6 +71,9 @@ func (vc *VC) incrementalScriptG(obls []*Obl, ground bool) string {
 	for i, f := range vc.facts {
 		emit(i)
 		if ground && hasQuant(f) {
+			if g := groundPart(f); !g.IsTrue() {
+				fmt.Fprintf(&sb, "(assert %s)\n", g.String())
+			}
 			continue
 		}
 		fmt.Fprintf(&sb, "(assert %s)\n", f.String())
@@ -89,6 +92,9 @@ func (vc *VC) singleScriptG(o *Obl, getValues []string, ground bool) string {
 	sb.WriteString(vc.prelude(false))
 	for _, f := range vc.facts[:o.NFacts] {
 		if ground && hasQuant(f) {
+			if g := groundPart(f); !g.IsTrue() {
+				fmt.Fprintf(&sb, "(assert %s)\n", g.String())
+			}
 			continue
 		}
 		fmt.Fprintf(&sb, "(assert %s)\n", f.String())
@@ -215,7 +221,26 @@ func solveVC(vc *VC, obls []*Obl, opts SolveOpts) {
 			os.Remove(file)
 		}
 	}
-	runInc(proofs, vc.isBV(), "ground")
+	if vc.isBV() {
+		runInc(proofs, true, "ground")
+	} else {
+		// int mode: a cheap quantifier-free pass first (hypotheses instantiated at the goal's terms), then the full
+		// problem for what is left ("sat" on the weakened problem means nothing)
+		saveQ := opts.QuickMs
+		if opts.QuickMs > 2000 {
+			opts.QuickMs = 2000
+		}
+		runInc(proofs, true, "ground")
+		opts.QuickMs = saveQ
+		var rest []*Obl
+		for _, o := range proofs {
+			if o.Status != "unsat" {
+				o.Status = "unknown"
+				rest = append(rest, o)
+			}
+		}
+		runInc(rest, false, "full")
+	}
 	// vacuity probes use the quantifier-free part of the assumptions only: "unsat" there is conclusive
 	// (a subset of the assumptions is already contradictory); "sat"/"unknown" count as non-vacuous.
 	saveQ := opts.QuickMs
@@ -432,14 +457,22 @@ func skolemize(t *Term, positive bool, sks *[]*Term) *Term {
 	return t
 }
 
+func localIndexFact(t *Term) bool {
+	if len(t.Bound) != 1 {
+		return false
+	}
+	return strings.HasPrefix(strings.Trim(t.Bound[0].Op, "|"), "k!")
+}
+
 // instantiate returns instances of the positive universal quantifiers of hypothesis h at the given constants.
 func instantiate(h *Term, sks []*Term, limit int, withPatterns bool) []*Term {
 	var out []*Term
 	var rec func(t *Term, wrap func(*Term) *Term)
 	rec = func(t *Term, wrap func(*Term) *Term) {
 		switch {
-		case t.Op == "forall" && len(t.Pats) > 0 && !withPatterns:
-			// engine axioms carry triggers and are left to E-matching
+		case t.Op == "forall" && len(t.Pats) > 0 && !withPatterns && !localIndexFact(t):
+			// engine axioms carry triggers and are left to E-matching (except the per-statement element facts of
+			// append/copy/modifies, whose single index variable is instantiated at the goal's index terms)
 		case t.Op == "forall":
 			// candidates per bound variable
 			combos := []map[string]*Term{{}}
@@ -494,6 +527,30 @@ func instantiate(h *Term, sks []*Term, limit int, withPatterns bool) []*Term {
 	}
 	rec(h, func(x *Term) *Term { return x })
 	return out
+}
+
+// groundPart keeps the quantifier-free conjuncts of a hypothesis (weakening it, which is sound for a proof).
+func groundPart(t *Term) *Term {
+	if !hasQuant(t) {
+		return t
+	}
+	switch {
+	case t.Op == "and":
+		var parts []*Term
+		for _, a := range t.Args {
+			if g := groundPart(a); !g.IsTrue() {
+				parts = append(parts, g)
+			}
+		}
+		return And(parts...)
+	case t.Op == "=>" && len(t.Args) == 2 && !hasQuant(t.Args[0]):
+		g := groundPart(t.Args[1])
+		if g.IsTrue() {
+			return TTrue
+		}
+		return Implies(t.Args[0], g)
+	}
+	return TTrue
 }
 
 func hasQuant(t *Term) bool {
